@@ -185,11 +185,12 @@ def snapshot_env(env, extra_roots=()):
 class ClauseExec:
     """evaluates a clause string with the same expression translator as the code"""
 
-    def __init__(self, ex, env, old_env=None, entry_env=None, module=None):
+    def __init__(self, ex, env, old_env=None, entry_env=None, module=None, pre_env=None):
         self.ex = ex
         self.env = env
         self.old_env = old_env
         self.entry_env = entry_env
+        self.pre_env = pre_env
         self.module = module
 
     def run(self, text):
@@ -210,11 +211,11 @@ class ClauseExec:
             ex.frames.pop()
 
 
-def eval_clause(ex, text, extra=None, old=None, entry=None, env=None):
+def eval_clause(ex, text, extra=None, old=None, entry=None, env=None, pre=None):
     base = dict(env if env is not None else ex.frames[-1].env)
     if extra:
         base.update(extra)
-    ce = ClauseExec(ex, base, old_env=old, entry_env=entry)
+    ce = ClauseExec(ex, base, old_env=old, entry_env=entry, pre_env=pre)
     v = ce.run(text)
     if is_z3(v):
         return V.z3bool(v)
@@ -257,15 +258,15 @@ def _spec_forall(ex, e, exists=False):
     if exists:
         f = band(dom, body)
         f = f if is_z3(f) else z3.BoolVal(bool(f))
-        return z3.Exists(vs, f)
+        return V.canon_quant(vs, f, exists=True)
     f = implies(dom, body)
     f = f if is_z3(f) else z3.BoolVal(bool(f))
-    return z3.ForAll(vs, f)
+    return V.canon_quant(vs, f)
 
 
 def _spec_old(ex, e, which):
     ctx = ex.clause_ctx
-    env = ctx.old_env if which == "old" else ctx.entry_env
+    env = ctx.old_env if which == "old" else ctx.entry_env if which == "entry" else ctx.pre_env
     if env is None:
         raise Unsupported("%s() outside a postcondition/invariant" % which)
     cur = ex.frames[-1].env
@@ -283,7 +284,7 @@ def _spec_old(ex, e, which):
         ex.frames.pop()
 
 
-SPEC_FORMS = {"forall", "exists", "implies", "old", "entry", "ite", "Sum", "iff", "fresh_int", "let"}
+SPEC_FORMS = {"forall", "exists", "implies", "old", "entry", "pre", "ite", "Sum", "iff"}
 
 
 def spec_call(ex, e):
@@ -315,7 +316,7 @@ def spec_call(ex, e):
         a = ex.eval(e.args[1])
         b = ex.eval(e.args[2])
         return True, ite(c, a, b)
-    if name in ("old", "entry"):
+    if name in ("old", "entry", "pre"):
         return True, _spec_old(ex, e, name)
     if name == "Sum":
         from . import sums
@@ -408,6 +409,7 @@ class FunctionReport:
         self.unsupported = []
         self.used_models = set()
         self.used_contracts = set()
+        self.used_lemmas = set()
         self.leaves = {}
         self.path_summaries = []
 
@@ -512,6 +514,7 @@ def verify_function(repo, registry, qualname, max_paths=400, post_hooks=()):
                 rep.notes.append(n)
         rep.used_models |= ex.used_models
         rep.used_contracts |= ex.used_contracts
+        rep.used_lemmas |= getattr(ex, "used_lemmas", set())
         work.extend(ex.forks)
     return rep
 
@@ -540,3 +543,33 @@ def clause_lemma(ctx, name, setup, hyps, goals, where="lemma"):
                               meta={"leaves": sfac.leaves})
         out.append(ob)
     return out
+
+
+# --------------------------------------------------------------------------------------------------
+# instances of Lean-proved lemmas
+
+def use_lemma(ex, name, bindings, extra=None, entry=None, pre=None, old=None):
+    """assume an instance of a lemma of qvc.lemmalib (proved by Lean on every run that uses it):
+    the lemma's formal names are bound to the values of the given expressions in the current state"""
+    from . import lemmalib
+    lem = lemmalib.LEMMAS[name]
+    env = {}
+    for formal, expr in bindings.items():
+        ce = ClauseExec(ex, dict(ex.frames[-1].env, **(extra or {})), old_env=old, entry_env=entry, pre_env=pre)
+        env[formal] = ce.run(expr)
+    missing = [f for f in lem["types"] if f not in env]
+    if missing:
+        raise Unsupported("lemma %s: unbound formals %s" % (name, missing))
+    fr = Frame(ex.frames[-1].finfo, env, ex.frames[-1].module)
+    ex.frames.append(fr)
+    try:
+        hs = [eval_clause(ex, (h[1] if isinstance(h, tuple) else h), env=env) for h in lem["hyps"]]
+        c = eval_clause(ex, lem["concl"], env=env)
+    finally:
+        ex.frames.pop()
+    known = set(h.get_id() for h in ex.pc if is_z3(h))
+    hs = [h for h in hs if not (is_z3(h) and h.get_id() in known)]
+    ex.assume(implies(band(*hs), c))
+    if not hasattr(ex, "used_lemmas"):
+        ex.used_lemmas = set()
+    ex.used_lemmas.add(name)
